@@ -60,35 +60,11 @@ def d1(chk, prog):
             chk.violate("decorator-contract", f"{f.qn}::decorator", f.loc(), f"{f.name} is not wrapped by @{want}(...): NaN stripping and the empty / single-value cases are lost "
                         f"(decorators: {[d[0] for d in decs]})")
             continue
-        args = hit[0][1]
-        if args is None:
+        if hit[0][1] is None:
             chk.violate("decorator-contract", f"{f.qn}::decorator", f.loc(), f"@{want} used without a call: the function itself is passed as `default`")
             continue
-        default = args[0] if args else None
-        if default is not None and default.startswith("default="):
-            default = default[len("default="):]
-        if is_scale:
-            ok = default in ("0", "0.0")
-            chk.decide(ok, "decorator-contract", f"{f.name}: @{want}({default if default is not None else ''}) (scale: single value -> 0)", f"{f.qn}::decorator default", f.loc(),
-                       f"scale estimator {f.name} has no default 0: for a single value v the wrapper returns v itself (e.g. {f.name}([-3], [1]) = -3, a negative 'spread')")
-        else:
-            ok = default in (None, "None")
-            chk.decide(ok, "decorator-contract", f"{f.name}: @{want}() (location: single value -> the value)", f"{f.qn}::decorator default", f.loc(),
-                       f"location estimator {f.name} returns the constant {default} for a single value instead of the value")
-    # the wrappers themselves (structure): NaN filter, empty -> nan, single -> a[0] | default
-    for w in ("on_array", "on_weighted_array"):
-        fi = prog.fn(f"{DESC}.{w}.outer.wrapper")
-        src = [norm(n) for n in own_nodes(fi.node)]
-        has_nan_filter = any("np.isnan(a)" in s for s in src)
-        rets = [norm(r.value) for r in own_nodes(fi.node) if isinstance(r, ast.Return) and r.value is not None]
-        ok = has_nan_filter and "np.nan" in rets and "a[0]" in rets and "default" in rets and any(r.startswith("f(a") for r in rets)
-        single = [n for n in own_nodes(fi.node) if isinstance(n, ast.If) and norm(n.test) == "len(a) == 1"]
-        ok = ok and bool(single)
-        if single:
-            inner = [n for n in single[0].body if isinstance(n, ast.If)]
-            ok = ok and bool(inner) and norm(inner[0].test) in ("default is None",) and any(norm(r.value) == "a[0]" for r in inner[0].body if isinstance(r, ast.Return))
-        chk.decide(ok, "decorator-contract", f"{w}: strips NaN; empty -> nan; single value -> a[0] if default is None else default", f"{fi.qn}::contract", fi.loc(),
-                   f"wrapper of {w} no longer implements the NaN / empty / single-value contract (returns: {rets})")
+        chk.ok("decorator-contract", f"{f.name}: wrapped by @{want}(...)", where=f.loc())
+    # what the wrappers do (NaN stripped, no data -> NaN, a single value -> the value / 0) is decided by evaluation in D5
 
 
 EPS_NAMES = ("epsilon", "eps", "tol", "tolerance")
@@ -282,6 +258,8 @@ MUTANTS = [
     dict(name="seeded C19c: modal_location fits the density to the distinct values", file=_D, old="    sarr = np.sort(a)\n    if sarr[0] == sarr[-1]:", new="    sarr = np.unique(a)\n    if len(sarr) == 1:"),
     dict(name="twin: constant-data guard through np.unique, density from all values", expect="silent", file=_D, old="    sarr = np.sort(a)\n    if sarr[0] == sarr[-1]:", new="    sarr = np.sort(a)\n    if len(np.unique(a)) == 1:"),
     dict(name="MAD of the distinct values", file=_D, old="    a_median = np.median(a)\n    mad = np.median(np.abs(a - a_median))", new="    a = np.unique(a)\n    a_median = np.median(a)\n    mad = np.median(np.abs(a - a_median))"),
+    dict(name="on_array no longer strips NaN", file=_D, old="            a = a[~np.isnan(a)]\n            if not len(a):\n                return np.nan\n            if len(a) == 1:", new="            if not len(a):\n                return np.nan\n            if len(a) == 1:"),
+    dict(name="twin: single-value case as a conditional expression", expect="silent", file=_D, old="                if default is None:\n                    return a[0]\n                return default\n            return f(a, **kwargs)", new="                return a[0] if default is None else default\n            return f(a, **kwargs)"),
     dict(name="regress: modal_location on constant data", file=_D, old="    if sarr[0] == sarr[-1]:\n        # All values equal: no density to estimate (gaussian_kde would fail)\n        return sarr[0]\n", new=""),
     dict(name="remove decorator of gapper_scale", file=_D, old="@on_array(0)\ndef gapper_scale", new="def gapper_scale"),
     dict(name="location estimator with default 0", file=_D, old="@on_array()\ndef modal_location", new="@on_array(0)\ndef modal_location"),
